@@ -55,6 +55,15 @@ CHECKS = {
     note="Trusted: TLC; fontTools otTables decompiler; anchor-name parsing re-implemented lexically in the harness.",
     technique="TLA+ mark-attachment interpreter evaluated by TLC on compiled tables; exhaustive TLC check of the class/lookup ordering rule",
     design="5 C06"),
+ "C17": dict(
+    text="FeaFile.tla states C17 declaratively (user statements are a subsequence of the compiled source; per tag: untouched "
+         "without marker, generated rules exactly at the first marker's position with one); FeaMC.tla transcribes setContext / "
+         "collectInsertMarkers / _insert and TLC checks it exhaustively over all small feature files (also: generated lookups "
+         "precede generated features); every generated compile's debugFeatureFile is parsed back and validated by TLC, together "
+         "with GSUB byte equality and the GSUB-writers-first order taken from the Writer hook events.",
+    note="Trusted: TLC; feaLib parser for the projection; statements identified by normalised text.",
+    technique="TLA+ insertion model checked exhaustively by TLC + TLC validation of parsed-back feature sources and writer events",
+    design="5 C17"),
  "C18": dict(
     text="GdefCursTrace.tla states the expected GDEF glyph classes (categories restricted to exported glyphs, invalid values "
          "ignored, user GlyphClassDef left alone), caret lists (rounded, increasing) and cursive records (rounded entry/exit, "
